@@ -234,7 +234,7 @@ def from_triples(triples):
         elif rel == CVARSORT:
             nd[src]['type'] = tgt
         elif rel.islower():
-            nd[src]['props'][rel] = tgt
+            nd[src]['props'][rel.upper()] = tgt
         else:
             rargname, post = rel.rsplit('-', 1)
             edges.append((src, tgt, rargname, post))
